@@ -4,7 +4,7 @@
    C18/Model.v ([run_req pid request kernel] = (answer, kernel afterwards)); specification: C18/Spec.v.
    [kget pid k] = the kernel's entry for pid; [kupd pid f k] changes that one entry by f;
    [set_nice/set_ioprio/set_mask/set_rlim] change one field of an entry. *)
-From PV Require Import C18.Spec C18.Legacy C18.Proofs C18.ProofsReq C18.ProofsElig C18.ProofsThm C18.ProofsParse.
+From PV Require Import C18.Spec C18.Handle C18.Legacy C18.Proofs C18.ProofsReq C18.ProofsElig C18.ProofsThm C18.ProofsParse C18.ProofsHandle.
 
 (* the packing of proc.c ((int)((unsigned)class << 13 | (unsigned)data)) loses nothing: for every
    class below 2^18 and every 13-bit data value the word is class*8192+data, fits an int and
@@ -257,3 +257,52 @@ Theorem C18_model_meets_spec : forall k pid p r exp,
   spec_req pid r k = Some exp -> run_req pid r k = exp.
 Proof. exact model_meets_spec. Qed.
 Print Assumptions C18_model_meets_spec.
+
+(* HANDLES (psutil.Process and its subclass psutil.Popen; C18/Handle.v).  A handle was created
+   for the process (pid, start time [h_ident]); [occ] is what the kernel shows under that pid
+   now; [h_reaped] says whether and how the child's exit status was collected through the
+   handle (wait / poll / communicate / with) -- the statements hold for every value of it,
+   for both classes and for every state of the flags _gone / _pid_reused.
+   [hcall h occ r k] = (answer, kernel afterwards, handle afterwards, platform layer entered?). *)
+
+(* the pid has been recycled by another process: no set form of nice / ionice / cpu_affinity /
+   rlimit reaches the platform layer (hence no system call), the answer is NoSuchProcess, the
+   kernel state -- in particular the new occupant -- is unchanged *)
+Theorem C18_handle_recycled_no_syscall : forall h st r k, guarded r = true -> st <> h_ident h ->
+  exists h', hcall h (Some st) r k = (Exc NoSuchProcess, k, h', false).
+Proof. exact recycled_no_syscall. Qed.
+Print Assumptions C18_handle_recycled_no_syscall.
+
+(* ... and once a handle has written its process off, never again, whoever holds the pid *)
+Theorem C18_handle_written_off_no_syscall : forall h occ r k, guarded r = true ->
+  h_gone h = true \/ h_reused h = true ->
+  hcall h occ r k = (Exc NoSuchProcess, k, h, false).
+Proof. exact written_off_no_syscall. Qed.
+Print Assumptions C18_handle_written_off_no_syscall.
+
+(* nobody under the pid: nothing changes, whatever the request; nice and cpu_affinity answer
+   NoSuchProcess (ionice / rlimit may object to their arguments first) *)
+Theorem C18_handle_gone_nothing_changes : forall h r k, kget (h_pid h) k = None ->
+  snd (fst (fst (hcall h None r k))) = k.
+Proof. exact gone_nothing_changes. Qed.
+Print Assumptions C18_handle_gone_nothing_changes.
+
+Theorem C18_handle_gone_nosuchprocess : forall h k, kget (h_pid h) k = None ->
+  (forall v, fits_int v = true -> fst (fst (fst (hcall h None (Nice (Some v)) k))) = Exc NoSuchProcess)
+  /\ (forall cpus, fst (fst (fst (hcall h None (Affinity (Some cpus)) k))) = Exc NoSuchProcess).
+Proof. exact gone_nosuchprocess. Qed.
+Print Assumptions C18_handle_gone_nosuchprocess.
+
+(* the same process still holds the pid: the handle adds nothing to the plain call *)
+Theorem C18_handle_same_occupant_transparent : forall h r k, h_gone h = false -> h_reused h = false ->
+  hcall h (Some (h_ident h)) r k = (fst (run_req (h_pid h) r k), snd (run_req (h_pid h) r k), h, true).
+Proof. exact same_occupant_transparent. Qed.
+Print Assumptions C18_handle_same_occupant_transparent.
+
+(* the oracle for handle histories ([spec_hcall]) is met by the model *)
+Theorem C18_hcall_meets_spec : forall h occ r k exp, wf_kernelb k = true ->
+  (forall st, occ = Some st -> exists p, kget (h_pid h) k = Some p /\ wf_procb k p = true) ->
+  (occ = None -> kget (h_pid h) k = None) -> h_pid h <> 0 ->
+  spec_hcall h occ r k = Some exp -> fst (fst (hcall h occ r k)) = exp.
+Proof. exact hcall_meets_spec. Qed.
+Print Assumptions C18_hcall_meets_spec.
